@@ -47,10 +47,35 @@ func main() {
 	flag.String("progress", "", "")
 	maxComps := flag.Int("maxcomps", 256, "")
 	only := flag.Int("only", -1, "")
+	scen := flag.Bool("scenarios", false, "run the directed scenarios of C17 (shard 0)")
 	flag.Parse()
 
 	res := out{Prop: "C17", Hashes: map[string]bool{}, Counters: map[string]int64{}, Scenarios: map[string][]string{}}
 	t0 := time.Now()
+	if *scen && *shard == 0 && *only < 0 {
+		// directed scenarios of the dump/load property (pinned triggers of findings)
+		for _, sc := range eng.Scenarios {
+			for _, pr := range sc.Props {
+				if pr != "C17" {
+					continue
+				}
+				var msgs []string
+				func() {
+					defer func() {
+						if p := recover(); p != nil {
+							msgs = append(msgs, fmt.Sprintf("scenario panicked: %v", p))
+						}
+					}()
+					msgs = sc.Run()
+				}()
+				if msgs == nil {
+					msgs = []string{}
+				}
+				res.Scenarios[sc.Name] = msgs
+				break
+			}
+		}
+	}
 	pf := eng.Profiles["churn"]()
 	o := &eng.Opts{MaxComponents: *maxComps, Avoid: map[string]bool{}}
 	for c := *shard; c < *cases; c += *nshards {
@@ -132,9 +157,9 @@ func main() {
 			// target world: fresh or reset
 			caps := [][]int{nil, {1}, {2}, {64}, {1024, 8}}[r.Intn(5)]
 			w2 := ecs.NewWorld(caps...)
+			var tmp []ecs.Entity
 			if variant >= 2 {
 				// a world with a history, then Reset
-				tmp := []ecs.Entity{}
 				for i := 0; i < 5+r.Intn(40); i++ {
 					tmp = append(tmp, w2.NewEntity())
 				}
@@ -154,6 +179,13 @@ func main() {
 					res.Counters["handles-compared"]++
 					if w2.Alive(s.h) != s.alive || (!checkpoint && d.W.Alive(s.h) != s.alive) {
 						msgs = append(msgs, fmt.Sprintf("handle %v: source Alive=%v, loaded Alive=%v, at dump time %v (checkpoint=%v)", s.h, d.W.Alive(s.h), w2.Alive(s.h), s.alive, checkpoint))
+					}
+				}
+				// handles the target world issued before its own Reset stay dead after the load (IDs the dump does not use)
+				for _, h := range tmp {
+					if int(h.ID()) >= len(dump.Entities) && w2.Alive(h) {
+						msgs = append(msgs, fmt.Sprintf("handle %v, removed by the target world's Reset before the load, is reported alive after LoadEntities (dump has %d entries)", h, len(dump.Entities)))
+						break
 					}
 				}
 				// the reserved zero and wildcard entities are not alive in a loaded world either
